@@ -2,7 +2,7 @@
    Print Assumptions.  [reachable c s]: s is reached from the empty queue by ANY finite sequence of atomic
    sections (labels) of any number of producers, consumers, completions, cancellations and a shutdown —
    i.e. every interleaving; sizes are arbitrary integers (in-memory) / arbitrary non-negative (persistent). *)
-From Verif Require Import Common.Base C02.Model C02.Proofs C02.Proofs2 C02.Proofs3 C02.Proofs4 C02.Proofs5 C02.Proofs6 C02.Proofs7 C02.Proofs8 C02.Obligations Generated.C02Queue C02.PropCheck C02.PropCheckProofs C02.Link.
+From Verif Require Import Common.Base C02.Model C02.Proofs C02.Proofs2 C02.Proofs3 C02.Proofs4 C02.Proofs5 C02.Proofs6 C02.Proofs7 C02.Proofs8 C02.Obligations Generated.C02Queue C02.PropCheck C02.PropCheckProofs C02.Link C02.LinkM.
 Local Open Scope Z_scope.
 
 (* --- reported size -------------------------------------------------------------------------------------- *)
@@ -51,7 +51,7 @@ Proof. exact offer_degenerate_l. Qed.
 
 (* a blocked producer that received a wake-up token is admitted exactly when its request fits now *)
 Theorem relock_admitted_iff : forall c s p s' z sz,
-  blocking c = true -> pget p (prods s) = Some (PLeftTok sz) -> find_id p (faulty s) = None ->
+  blocking c = true -> 0 < sigs s -> pget p (prods s) = Some (PLeftTok sz) -> find_id p (faulty s) = None ->
   step c s (LRelockTok p) = Some (s', z) ->
   ((z = c_enq \/ z = c_await) <-> size s + sz <= cap c) /\
   (z = c_blocked <-> size s + sz > cap c) /\
@@ -90,64 +90,50 @@ Proof. exact handoff_fifo_l. Qed.
 Theorem handoff_complete : forall c s,
   0 <= cap c -> reachable c s ->
   (items s = [] -> hand s = acc s) /\
-  (forall p sz r, items s = (p, sz) :: r -> lock s = Free -> (kind c = Pers -> stopped s = false) ->
+  (forall p sz r, items s = (p, sz) :: r -> (kind c = Pers -> stopped s = false) ->
      exists s', step c s LRead = Some (s', 10 + Z.of_nat p) /\ hand s' = hand s ++ [p] /\ items s' = r).
 Proof.
   exact (fun c s Hc R => conj (handoff_complete_l c s Hc R) (fun p sz r => read_enabled_l c s p sz r)).
 Qed.
 
 (* --- the context-aware condition variable --------------------------------------------------------------------- *)
-(* #(threads inside select) + #(left on ctx, not yet re-locked) = waiting + len(ch) + [a Signal is blocked] *)
+(* repaired cond (a6d2b6d09): every thread between its waiting++ and its re-lock is either still counted in `waiting`
+   or owed one of the pending `signals`; a pending signal always has its bell rung or a woken thread on its way *)
 Theorem cond_token_invariant : forall c s,
   reachable c s ->
-  cnt is_insel (prods s) + cnt is_leftctx (prods s) = waiting s + b2z (tok s) + sb s /\ 0 <= waiting s.
+  cnt is_insel (prods s) + cnt is_lefttok (prods s) + cnt is_leftctx (prods s) = waiting s + sigs s /\
+  0 <= waiting s /\ 0 <= sigs s /\
+  (0 < sigs s -> tok s = true \/ 0 < cnt is_lefttok (prods s)).
 Proof. exact cond_token_invariant_l. Qed.
 
-(* the `<-c.ch` of a cancelled waiter that finds waiting = 0 never blocks: it returns the context error *)
-Theorem cancelled_waiter_reclaims : forall c s p s' z,
-  reachable c s -> step c s (LRelockCtx p) = Some (s', z) ->
-  z = c_ctx /\ pget p (prods s') = Some (PRet RCtx) /\ lock s' = Free.
+(* a cancelled waiter never blocks on its way out (the old `<-c.ch` is gone): it un-counts itself, or, if a Signal
+   already un-counted it, takes that pending signal with it, and returns the context error *)
+Theorem cancelled_waiter_reclaims : forall c s p sz,
+  pget p (prods s) = Some (PLeftCtx sz) ->
+  exists s', step c s (LRelockCtx p) = Some (s', c_ctx) /\ pget p (prods s') = Some (PRet RCtx).
 Proof. exact cancelled_waiter_reclaims_l. Qed.
 
 (* --- no lost wake-up ------------------------------------------------------------------------------------------- *)
 (* FULL statement: Model.no_lost_wakeup_statement c :=
      forall s, reachable c s -> quiescent c s -> all_returned s.
-   It is FALSE of the code as written (finding F3), for both queue kinds, with requests that all fit: *)
-Theorem no_lost_wakeup_refuted :
-  forall k, exists c, kind c = k /\ 0 < cap c /\ ~ no_lost_wakeup_statement c.
-Proof. exact no_lost_wakeup_statement_refuted_l. Qed.
+   It HOLDS of the code since the repair of F3 (a6d2b6d09) — both queue kinds, faulty offers included: *)
+Theorem no_lost_wakeup : forall c, 0 <= cap c -> no_lost_wakeup_statement c.
+Proof. exact no_lost_wakeup_l. Qed.
 
-(* the F3 witness in detail: a reachable quiescent state in which a Signal is blocked on the full channel with
-   the mutex held, two cancelled producers never return their context error, an accepted request is never
-   handed over, and no Offer / Read / Shutdown can ever start again *)
-Theorem no_lost_wakeup_refuted_witness :
-  forall k, exists c s,
-    kind c = k /\ 0 < cap c /\ reachable_fit c s /\ quiescent c s /\
-    size s = 1 /\ items s = [(2%nat, 1)] /\ inflight s = [] /\
-    lock s = BSend PendNone /\ tok s = true /\ waiting s = 0 /\
-    (forall p, p = 3%nat \/ p = 4%nat -> In p (cancelled s) /\ pget p (prods s) = Some (PLeftCtx 1)) /\
-    ~ all_returned s /\
-    (forall p sz, step c s (LOffer p sz) = None) /\ step c s LRead = None /\ step c s LShutdown = None.
-Proof. exact no_lost_wakeup_refuted_l. Qed.
-
-(* PARTIAL (what holds): on runs without an oversized request on a persistent queue (S1) and outside the F3
-   deadlock (the mutex is free), a quiescent state has NO producer left inside Offer: nobody stays blocked —
-   with or without space, cancelled (they returned the context error) or not, waiting for a result or not. *)
-Theorem no_lost_wakeup_partial : forall c s,
-  0 <= cap c -> reachable c s -> quiescent c s -> lock s = Free -> all_returned s.
-Proof. exact no_lost_wakeup_partial_l. Qed.
-
-(* ... and every quiescent state whose mutex is not free has exactly the F3 shape: a blocked Signal, a full
-   channel, nobody left inside the select, and waiting + 2 >= 2 producers that left on their context *)
-Theorem deadlock_shape : forall c s,
-  0 <= cap c -> reachable c s -> quiescent c s -> lock s <> Free ->
-  (exists k, lock s = BSend k) /\ tok s = true /\ cnt is_insel (prods s) = 0 /\
-  cnt is_leftctx (prods s) = waiting s + 2 /\ 0 <= waiting s.
-Proof. exact deadlock_shape_l. Qed.
+(* F3 REPAIRED (fix a6d2b6d09).  The former F3 schedule (two Signals before the first woken waiter runs, the two
+   remaining waiters cancelled), replayed on the repaired cond, completes: both cancelled producers return their
+   context error, every accepted request is handed over, everybody has returned; what is left is a stale bell
+   (tok = true with no signal pending), which is harmless *)
+Theorem f3_schedule_completes : forall k,
+  let c := f3_cfg k in let s := final c f3_trace in
+  run c init f3_trace = Some s /\ reachable c s /\ quiescent c s /\ all_returned s /\
+  pget 3%nat (prods s) = Some (PRet RCtx) /\ pget 4%nat (prods s) = Some (PRet RCtx) /\
+  hand s = [0; 1; 2]%nat /\ size s = 0 /\ waiting s = 0 /\ sigs s = 0 /\ tok s = true.
+Proof. exact f3_schedule_completes_l. Qed.
 
 (* S1 REPAIRED (fix f7a3004ea; formerly blocked_on_empty_queue_refuted): with block_on_overflow the persistent queue
    refuses a request larger than the capacity (errSizeTooLarge) before anything else — faulty or not — and changes
-   nothing; no_lost_wakeup_partial above therefore needs no size side condition any more.  The former S1 histories,
+   nothing; no_lost_wakeup above therefore needs no size side condition.  The former S1 histories,
    replayed, end quiescent with everybody returned (regression witnesses). *)
 Theorem oversized_offer_refused : forall c s p sz s' z,
   kind c = Pers -> blocking c = true -> sz > cap c ->
@@ -163,21 +149,20 @@ Proof. exact oversized_offer_refused_witness_l. Qed.
 
 Theorem oversized_no_longer_steals_witness :
   let s := final s1b_cfg s1b_trace in
-  run s1b_cfg init s1b_trace = Some s /\ quiescent s1b_cfg s /\ lock s = Free /\ all_returned s /\
+  run s1b_cfg init s1b_trace = Some s /\ quiescent s1b_cfg s /\ all_returned s /\
   pget 2%nat (prods s) = Some (PRet RTooLarge) /\ pget 1%nat (prods s) = Some (PRet ROk) /\
   hand s = [0; 1]%nat /\ size s = 0 /\ waiting s = 0 /\ tok s = false.
 Proof. exact oversized_no_longer_steals_witness_l. Qed.
 
-(* released when space: safety form.  (1) in every reachable S1-free state, producers still counted in
-   `waiting` never sit on an empty queue unless a wake-up is on its way (token in the channel or a woken
-   producer about to re-lock); (2) every OnDone issued while somebody is counted leaves a token; (3) a token
-   lets any producer inside the select proceed to its re-check (relock_admitted_iff says what it decides).
-   The fairness-based liveness corollary is not proved (NOTES.md). *)
-Theorem released_when_space_partial : forall c s,
+(* released when space: safety form.  (1) in every reachable state, producers still counted in `waiting` never sit
+   on an empty queue unless a wake-up is pending (signals > 0); (2) every OnDone issued while somebody is counted
+   un-counts one waiter, records a pending signal and rings the bell; (3) a rung bell lets any producer inside the
+   select proceed to its re-check (relock_admitted_iff says what it decides).  Liveness: released_when_space. *)
+Theorem released_when_space_safety : forall c s,
   0 <= cap c -> reachable c s ->
-  (0 < waiting s -> 0 < size s \/ tok s = true \/ 0 < cnt is_lefttok (prods s)) /\
+  (0 < waiting s -> 0 < size s \/ 0 < sigs s) /\
   (forall id e s' z, step c s (LDone id e) = Some (s', z) -> 0 < waiting s ->
-     tok s' = true /\ waiting s' = waiting s - 1) /\
+     tok s' = true /\ waiting s' = waiting s - 1 /\ sigs s' = sigs s + 1) /\
   (forall p sz, pget p (prods s) = Some (PInSelect sz) -> tok s = true ->
      exists s', step c s (LSelTok p) = Some (s', 0) /\ pget p (prods s') = Some (PLeftTok sz)).
 Proof.
@@ -198,22 +183,18 @@ Theorem wait_for_result_own_outcome : forall c s p,
 Proof. exact wait_for_result_own_outcome_l. Qed.
 
 (* a producer waiting for its result always has its request queued, in flight, finished with the result
-   waiting in its channel, or finished by an OnDone that is blocked in Signal (F3 again) *)
+   waiting in its channel *)
 Theorem awaiting_producer_is_tracked : forall c s p,
   0 <= cap c -> reachable c s -> pget p (prods s) = Some PAwait ->
-  In p (map fst (items s)) \/ In p (map fst (inflight s)) \/ In p (map fst (results s)) \/
-  exists e, lock s = BSend (PendRes p e).
+  In p (map fst (items s)) \/ In p (map fst (inflight s)) \/ In p (map fst (results s)).
 Proof. exact (fun c s p Hc R => reach_awaitinv c s Hc R p). Qed.
 
 (* --- round 3 ---------------------------------------------------------------------------------------------------- *)
-(* THE IFF.  In a quiescent reachable state somebody is still inside Offer exactly when the state has the F3 shape
-   (Model.f3_shape); since the repair of S1 the S1 shape (Model.s1_shape) is unreachable: ~ s1_shape s (it used to need an oversized
-   Offer in the history); the F3 shape always contains a cancelled producer that never gets its context error. *)
-Theorem no_lost_wakeup_iff : forall c s,
-  0 <= cap c -> reachable c s -> quiescent c s ->
-  (stuck s <-> f3_shape s) /\ ~ s1_shape s /\
-  (f3_shape s -> exists p sz, pget p (prods s) = Some (PLeftCtx sz) /\ In p (cancelled s)).
-Proof. exact no_lost_wakeup_iff_l. Qed.
+(* In a quiescent reachable state nobody is still inside Offer (formerly an iff with the F3 shape; since the repairs
+   of S1 and F3 neither shape exists any more). *)
+Theorem no_stuck_at_quiescence : forall c s,
+  0 <= cap c -> reachable c s -> quiescent c s -> ~ stuck s.
+Proof. exact no_stuck_at_quiescence_l. Qed.
 
 (* RANKING FUNCTION.  Every internal step (blocked producers, consumers, completions) of a running queue strictly
    decreases the natural-number measure Model.mu, so any run of internal labels from s has at most mu s steps:
@@ -227,28 +208,27 @@ Proof.
                 (mu_decreases c s l s' z (reach_nofault _ c s (fun l H => H) R) (reach_tokinv _ c s R) St Hi H)).
 Qed.
 
-(* RELEASED WHEN SPACE (eventuality).  S1-free reachable state of a running queue; only the queue's own threads move.
+(* RELEASED WHEN SPACE (eventuality).  Reachable state of a running queue; only the queue's own threads move.
    (a) at most mu s steps are possible; (b) if the state reached is quiescent (a weakly fair run must get there,
-   by (a)), it is the F3 deadlock, or everybody has returned, the queue has drained and every producer that was
+   by (a)), everybody has returned, the queue has drained and every producer that was
    parked in s with a live context has been admitted, handed to a consumer and finished. *)
 Theorem released_when_space : forall c s ls s',
   0 <= cap c -> reachable c s -> stopped s = false ->
   internal_run ls -> run c s ls = Some s' ->
   Z.of_nat (length ls) <= mu s /\
   (quiescent c s' ->
-     f3_shape s' \/
-     (all_returned s' /\ items s' = [] /\ inflight s' = [] /\ size s' = 0 /\ lock s' = Free /\
-      forall p sz, blocking c = true ->
-        pget p (prods s) = Some (PInSelect sz) \/ pget p (prods s) = Some (PLeftTok sz) ->
-        ~ In p (cancelled s) ->
-        (find_id p (faulty s) = None -> In p (acc s') /\ In p (hand s') /\ In p (map fst (fin s'))) /\
-        (forall k, find_id p (faulty s) = Some k -> exists k', pget p (prods s') = Some (PRet (RErr k'))))).
+     all_returned s' /\ items s' = [] /\ inflight s' = [] /\ size s' = 0 /\
+     forall p sz, blocking c = true ->
+       pget p (prods s) = Some (PInSelect sz) \/ pget p (prods s) = Some (PLeftTok sz) ->
+       ~ In p (cancelled s) ->
+       (find_id p (faulty s) = None -> In p (acc s') /\ In p (hand s') /\ In p (map fst (fin s'))) /\
+       (forall k, find_id p (faulty s) = Some k -> exists k', pget p (prods s') = Some (PRet (RErr k')))).
 Proof. exact released_when_space_l. Qed.
 
 (* PROGRESS (constructive): while somebody is inside Offer and the mutex is free, an internal label is enabled and
    leads strictly closer (so a weakly fair run cannot stop before quiescence). *)
 Theorem progress_while_stuck : forall c s,
-  0 <= cap c -> reachable c s -> stopped s = false -> lock s = Free -> stuck s ->
+  0 <= cap c -> reachable c s -> stopped s = false -> stuck s ->
   exists l s' z, internal l = true /\ step c s l = Some (s', z) /\ mu s' < mu s.
 Proof. exact progress_l. Qed.
 
@@ -272,32 +252,29 @@ Proof. exact pool_objects_unshared_l. Qed.
    waiter's receive never blocks, and a blocked Broadcast has a full slot and somebody still counted. *)
 Theorem cond_api_invariant : forall c s,
   reachable_api c s ->
-  cnt is_insel (prods s) + cnt is_leftctx (prods s) = waiting s + b2z (tok s) + sb s /\ 0 <= waiting s /\
-  (forall p, lock s <> BRecv p) /\
-  (lock s = BBcast -> tok s = true /\ 0 < waiting s).
+  cnt is_insel (prods s) + cnt is_lefttok (prods s) + cnt is_leftctx (prods s) = waiting s + sigs s /\
+  0 <= waiting s /\ 0 <= sigs s /\ (0 < sigs s -> tok s = true \/ 0 < cnt is_lefttok (prods s)).
 Proof. exact cond_api_invariant_l. Qed.
 
 (* what one Broadcast section does (up to its first blocking send) *)
 Theorem broadcast_step : forall c s s' z,
   step c s LBroadcast = Some (s', z) ->
-  lock s = Free /\
-  (waiting s = 0 -> s' = s) /\
-  (0 < waiting s -> tok s = false -> tok s' = true /\ waiting s' = waiting s - 1 /\
-     (waiting s = 1 -> lock s' = Free) /\ (1 < waiting s -> lock s' = BBcast)) /\
-  (0 < waiting s -> tok s = true -> lock s' = BBcast /\ waiting s' = waiting s).
+  z = 0 /\ waiting s' = 0 /\ sigs s' = sigs s + waiting s /\
+  (0 < sigs s + waiting s -> tok s' = true) /\ (sigs s + waiting s <= 0 -> tok s' = tok s) /\
+  size s' = size s /\ items s' = items s /\ prods s' = prods s.
 Proof. exact broadcast_step_l. Qed.
 
 (* --- strengthening round: the consumer side ---------------------------------------------------------------------- *)
 (* CONSUMERS PARKED IN Read (hasMoreElements, a sync.Cond: Signal wakes the longest-waiting consumer, Shutdown
    broadcasts).  In every reachable state: while some consumer is parked un-signalled, every queued request has a
    signalled consumer on its way (#queued <= #signalled); once the queue is stopped nobody is parked un-signalled;
-   a signalled consumer can always take its next step when the mutex is free (and that step decreases mu);
+   a signalled consumer can always take its next step (and that step decreases mu);
    Shutdown leaves no consumer un-signalled. *)
 Theorem consumer_no_lost_wakeup : forall c s,
   reachable c s ->
   (0 < ccount false (cons s) -> Z.of_nat (length (items s)) <= ccount true (cons s)) /\
   (stopped s = true -> ccount false (cons s) = 0) /\
-  (forall k, cfind k (cons s) = Some true -> lock s = Free ->
+  (forall k, cfind k (cons s) = Some true ->
      exists s' z, step c s (LCWake k) = Some (s', z) /\ mu s' < mu s \/ stopped s = true) /\
   (forall s' z, step c s LShutdown = Some (s', z) -> ccount false (cons s') = 0).
 Proof. exact consumer_no_lost_wakeup_l. Qed.
@@ -320,11 +297,11 @@ Proof. exact pq_resync_on_empty_l. Qed.
    parks again).  With block_on_overflow a faulty request that does not fit parks like any other. *)
 Theorem faulty_offer_changes_nothing : forall c s p sz k s' z,
   step c s (LOfferF p sz k) = Some (s', z) -> (blocking c = true -> sz <= cap c) ->
-  kind c = Pers /\ lock s = Free /\
+  kind c = Pers /\
   (size s + sz <= cap c ->
-     z = k /\ s' = signal PendNone (setp p (PRet (RErr k)) s) /\
+     z = k /\ s' = signal (setp p (PRet (RErr k)) s) /\
      (waiting s = 0 -> s' = setp p (PRet (RErr k)) s) /\
-     (0 < waiting s -> waiting s' = waiting s - 1 /\ tok s' = true)) /\
+     (0 < waiting s -> waiting s' = waiting s - 1 /\ sigs s' = sigs s + 1 /\ tok s' = true)) /\
   (size s + sz > cap c -> blocking c = false -> z = c_full /\ s' = setp p (PRet RFull) s) /\
   (size s + sz > cap c -> blocking c = true ->
      z = c_blocked /\ pget p (prods s') = Some (PInSelect sz) /\ waiting s' = waiting s + 1 /\
@@ -336,23 +313,22 @@ Proof. exact faulty_offer_changes_nothing_l. Qed.
 (* REPAIRED finding C02-FAULTY-WAITER-STEALS-WAKEUP (fix 03fbf1134).  A parked producer whose request cannot be stored
    (Marshal / storage-write error), once woken and past the capacity loop, returns its error, changes nothing and
    PASSES THE WAKE-UP ON: if anybody is still counted a token is issued for them; a Signal with nobody counted is a
-   no-op.  Faulty offers (LOfferF) are now part of [reachable] / [reachable_fit], so no_lost_wakeup_partial,
-   no_lost_wakeup_iff, released_when_space and progress_while_stuck hold on runs with faulty offers too (in
+   no-op.  Faulty offers (LOfferF) are now part of [reachable] / [reachable_fit], so no_lost_wakeup,
+   no_stuck_at_quiescence, released_when_space and progress_while_stuck hold on runs with faulty offers too (in
    released_when_space a parked producer of that kind ends with its error, every other parked live producer is
    admitted).  The former refutation witness, replayed, now ends quiescent with everybody returned. *)
 Theorem faulty_waiter_passes_wakeup : forall c s p sz k s' z,
-  pget p (prods s) = Some (PLeftTok sz) -> find_id p (faulty s) = Some k -> size s + sz <= cap c ->
+  pget p (prods s) = Some (PLeftTok sz) -> find_id p (faulty s) = Some k -> 0 < sigs s -> size s + sz <= cap c ->
   step c s (LRelockTok p) = Some (s', z) ->
-  z = k /\ s' = signal PendNone (setp p (PRet (RErr k)) s) /\
-  pget p (prods s') = Some (PRet (RErr k)) /\
+  z = k /\ pget p (prods s') = Some (PRet (RErr k)) /\
   size s' = size s /\ items s' = items s /\ acc s' = acc s /\
-  (waiting s = 0 -> waiting s' = 0 /\ tok s' = tok s /\ lock s' = Free) /\
-  (0 < waiting s -> waiting s' = waiting s - 1 /\ tok s' = true).
+  (waiting s = 0 -> waiting s' = 0 /\ sigs s' = sigs s - 1) /\
+  (0 < waiting s -> waiting s' = waiting s - 1 /\ sigs s' = sigs s /\ tok s' = true).
 Proof. exact faulty_waiter_passes_wakeup_l. Qed.
 
 Theorem faulty_waiter_passes_wakeup_witness :
   exists s, run fw_cfg init fw_trace = Some s /\ reachable_fit fw_cfg s /\
-    quiescent fw_cfg s /\ lock s = Free /\ all_returned s /\ size s = 0 /\ tok s = false /\ waiting s = 0 /\
+    quiescent fw_cfg s /\ all_returned s /\ size s = 0 /\ tok s = false /\ waiting s = 0 /\ sigs s = 0 /\
     acc s = [0; 3]%nat /\ hand s = [0; 3]%nat /\
     pget 1%nat (prods s) = Some (PRet (RErr c_marshal)) /\ pget 2%nat (prods s) = Some (PRet (RErr c_storeerr)) /\
     pget 3%nat (prods s) = Some (PRet ROk).
@@ -394,10 +370,10 @@ Theorem prop_ok_sound : forall cs, prop_ok cs = true <-> Clauses cs.
 Proof. exact prop_ok_sound_l. Qed.
 
 (* clause "every accepted request is handed to a consumer", liveness half: when the queue's own activity has come to
-   rest with the mutex free (outside the F3 deadlock) everything accepted has been handed over and finished, nothing is
+   rest everything accepted has been handed over and finished, nothing is
    queued or in flight, the size is 0 and every producer has returned *)
 Theorem accepted_handed_and_finished_at_quiescence : forall c s,
-  0 <= cap c -> reachable c s -> quiescent c s -> lock s = Free ->
+  0 <= cap c -> reachable c s -> quiescent c s ->
   hand s = acc s /\ items s = [] /\ inflight s = [] /\ size s = 0 /\
   (forall id, In id (acc s) -> In id (map fst (fin s))) /\ all_returned s.
 Proof. exact accepted_handed_and_finished_at_quiescence_l. Qed.
@@ -408,11 +384,7 @@ Proof. exact accepted_handed_and_finished_at_quiescence_l. Qed.
    the harness's coding of faulty offers (obs_label), what the model produces satisfies the checker's clauses B (size
    within 0..capacity), Z (zero when nothing accepted is unfinished) and H (hand-off exactly once, never of a refused
    id, in acceptance order) — so the checker never demands more than the model delivers on these clauses, and its
-   verdicts and the theorems above are statements about the same thing.  Clause M (in-memory size = summed size of the
-   accepted-but-unfinished requests, as reconstructed from the Offer labels) is NOT linked: it needs a simulation of
-   the checker's size table (szof) against the sizes stored in items / inflight through every enqueue of a woken
-   producer; mq_size_exact proves the clause of the model's own state, the checker's reconstruction of it is validated
-   empirically only (0 violations on all cases of every run). *)
+   verdicts and the theorems above are statements about the same thing.  (Clause M: model_passes_checker below.) *)
 Theorem model_passes_checker_BZH : forall c ls,
   0 <= cap c -> Forall (lnk_label c) ls ->
   let cs := observed_case c ls in
@@ -420,6 +392,14 @@ Theorem model_passes_checker_BZH : forall c ls,
   Forall Clause_zero (snaps h0 (snd cs)) /\
   Clause_handoff (final_hist (snd cs)).
 Proof. exact Link.model_passes_checker_BZH. Qed.
+
+(* THE WHOLE CHECKER, clause M included (in-memory queue: reported size = summed size of the accepted-but-unfinished
+   requests as the checker reconstructs it from the Offer labels): every observed case that the model itself
+   produces is accepted by the executable checker.  LinkM.szinv is the simulation of the checker's size table against
+   the sizes stored in items / inflight and carried by parked producers, through every enqueue of a woken producer. *)
+Theorem model_passes_checker : forall c ls,
+  0 <= cap c -> Forall (lnk_label c) ls -> prop_ok (observed_case c ls) = true.
+Proof. exact model_passes_checker_l. Qed.
 
 Print Assumptions mq_size_exact.
 Print Assumptions pq_size_bounds.
@@ -431,17 +411,15 @@ Print Assumptions handoff_fifo.
 Print Assumptions handoff_complete.
 Print Assumptions cond_token_invariant.
 Print Assumptions cancelled_waiter_reclaims.
-Print Assumptions no_lost_wakeup_refuted.
-Print Assumptions no_lost_wakeup_refuted_witness.
-Print Assumptions no_lost_wakeup_partial.
-Print Assumptions deadlock_shape.
+Print Assumptions no_lost_wakeup.
+Print Assumptions f3_schedule_completes.
 Print Assumptions oversized_offer_refused.
 Print Assumptions oversized_offer_refused_witness.
 Print Assumptions oversized_no_longer_steals_witness.
-Print Assumptions released_when_space_partial.
+Print Assumptions released_when_space_safety.
 Print Assumptions wait_for_result_own_outcome.
 Print Assumptions awaiting_producer_is_tracked.
-Print Assumptions no_lost_wakeup_iff.
+Print Assumptions no_stuck_at_quiescence.
 Print Assumptions internal_step_decreases_measure.
 Print Assumptions released_when_space.
 Print Assumptions progress_while_stuck.
@@ -464,3 +442,4 @@ Print Assumptions done_and_list_api_is_modelled.
 Print Assumptions prop_ok_sound.
 Print Assumptions accepted_handed_and_finished_at_quiescence.
 Print Assumptions model_passes_checker_BZH.
+Print Assumptions model_passes_checker.
